@@ -75,9 +75,67 @@ def _work(chunk):
     return acc.pack()
 
 
-def part(rep, calls, label='call-order pass'):
+def with_conventions(calls, per_fn=4):
+    """the alphabet extended by other ways of WRITING some of its calls: all arguments by keyword in signature order, by keyword in reverse order,
+    first argument positional and the rest by keyword in reverse order, and only the non-default trailing arguments by keyword - the same call as far
+    as Python is concerned, but not for a memo keyed on how the arguments were passed"""
+    import inspect
+    out = list(calls)
+    ident = lambda c: (c[0], c[1], tuple(c[2].items()))
+    have = {ident(c) for c in out}
+    used = {}
+    for path, args, kw in calls:
+        if used.get(path, 0) >= per_fn:
+            continue
+        try:
+            ps = [p_ for p_ in inspect.signature(resolve(path)).parameters.values()]
+        except (TypeError, ValueError):
+            continue
+        if any(p_.kind not in (p_.POSITIONAL_OR_KEYWORD,) for p_ in ps) or len(args) > len(ps):
+            continue
+        names = [p_.name for p_ in ps]
+        full = dict(zip(names, args))
+        if set(kw) - set(names) or set(kw) & set(full):
+            continue
+        full.update(kw)
+        given = [n for n in names if n in full]
+        if len(given) < 2:
+            continue
+        used[path] = used.get(path, 0) + 1
+        vs = [(path, (), {n: full[n] for n in given}),
+              (path, (), {n: full[n] for n in reversed(given)}),
+              (path, (full[given[0]],), {n: full[n] for n in reversed(given[1:])}) if given[0] == names[0] else None]
+        # contiguous prefix positionally (keywords folded into positions)
+        k = 0
+        while k < len(names) and names[k] in full:
+            k += 1
+        if k == len(given):
+            vs.append((path, tuple(full[n] for n in names[:k]), {}))
+            vs.append((path, tuple(full[n] for n in names[:k - 1]), {names[k - 1]: full[names[k - 1]]}))
+        if k == len(given) and k >= 2:
+            a, b = names[k - 2], names[k - 1]
+            # prefix positional, the last two by keyword in reverse order
+            vs.append((path, tuple(full[n] for n in names[:k - 2]), {b: full[b], a: full[a]}))
+            if type(full[a]) is type(full[b]) and full[a] != full[b]:
+                # the neighbouring call with the last two VALUES exchanged (another call altogether), written positionally and with the two keywords reversed:
+                # its values appear in the same written order as the original's
+                vs.append((path, tuple(full[n] for n in names[:k - 2]) + (full[b], full[a]), {}))
+                vs.append((path, tuple(full[n] for n in names[:k - 2]), {b: full[a], a: full[b]}))
+        for v in vs:
+            if v is not None and ident(v) not in have:
+                have.add(ident(v))
+                out.append(v)
+    return out
+
+
+def part(rep, calls, label='call-order pass', conventions=True):
     """run the pass and fold it into the report"""
     calls = [(c[0], tuple(c[1]), dict(c[2]) if len(c) > 2 else {}) for c in calls]
+    if conventions:
+        common.bind_repo()
+        n0 = len(calls)
+        calls = with_conventions(calls)
+        label += ' (+%d calls written with other calling conventions)' % (len(calls) - n0)
     _G.clear()
     _G['calls'] = calls
     n = len(calls)
@@ -86,3 +144,86 @@ def part(rep, calls, label='call-order pass'):
               part='%s: %d calls, all ordered pairs (a, b) and triples (a, b, a) from a restored state, each answer vs the same call made first' % (label, n))
     rep.assumptions.append('call-order pass: the alphabet of %d calls is a covering choice (one call per code path the check knows), the pairs and triples over it are exhaustive' % n)
     return t
+
+
+def _work_groups(chunk):
+    gids, = chunk
+    G = _setup()
+    st, pristine, groups = G['st'], G['pristine'], G['groups']
+    acc = Acc()
+    for gi in gids:
+        calls = groups[gi]
+        alone = []
+        for c in calls:
+            st.restore(pristine)
+            alone.append(outcome(c))
+        for i, a in enumerate(calls):
+            for j, b in enumerate(calls):
+                st.restore(pristine)
+                ra = outcome(a)
+                rb = outcome(b)
+                for (what, got, want, hist) in (('first call', ra, alone[i], [a]), ('second call', rb, alone[j], [a, b])):
+                    acc.n += 1
+                    if got != want:
+                        acc.bad('answer-depends-on-earlier-calls:%s' % hist[-1][0].split(':')[-1].split('.')[-1], dict(history=[list(map(repr, h)) for h in hist]),
+                                '%s of the history gives %r; made first it gives %r' % (what, got, want))
+                    else:
+                        acc.nontrivial += 1
+    st.restore(pristine)
+    if not acc.samples and gids:
+        acc.samples.append(dict(order_pass_group=[repr(c) for c in groups[gids[0]][:2]]))
+    return acc.pack()
+
+
+def part_groups(rep, groups, label):
+    """as part(), but the alphabet comes in groups and only the ordered pairs inside a group are run (one worker pool for all groups)"""
+    groups = [[(c[0], tuple(c[1]), dict(c[2]) if len(c) > 2 else {}) for c in g] for g in groups]
+    _G.clear()
+    _G['groups'] = groups
+    _G['calls'] = [c for g in groups for c in g]
+    n = len(groups)
+    nchunks = max(1, min(n, common.NPROC * 2))
+    t = merge(rep, pmap(_work_groups, [(list(range(i, n, nchunks)),) for i in range(nchunks)]),
+              part='%s: %d groups, %d calls, all ordered pairs inside each group from a restored state, each answer vs the same call made first' % (label, n, len(_G['calls'])))
+    return t
+
+
+# ------------------------------------------------------------------------------------------------
+# replay of the violations of the call-order, cross-API and interpreter-mode passes (their cases are lists of repr()'d calls)
+
+def _is_call(h):
+    return isinstance(h, list) and len(h) == 3 and isinstance(h[0], str) and h[0].startswith("'athlib")
+
+
+def is_generic(rec):
+    c = rec.get('case', {})
+    return isinstance(c, dict) and (('interpreter' in c and 'call' in c) or ('history' in c and c['history'] and all(_is_call(h) for h in c['history'])))
+
+
+def _ev(text):
+    import datetime, decimal, collections, types
+    return eval(text, {'datetime': datetime, 'Decimal': decimal.Decimal, 'OrderedDict': collections.OrderedDict, 'inf': float('inf'), 'nan': float('nan')})
+
+
+def replay_generic(rec):
+    import subprocess, sys
+    c = rec['case']
+    print(rec['sig'], '-', rec['msg'])
+    if 'interpreter' in c:
+        code = ("import sys; sys.path.insert(0, %r); from vlib import common, orderpass; common.bind_repo(); "
+                "c = orderpass._ev(%r); print('optimize =', sys.flags.optimize, '->', orderpass.outcome(c))" % (common.VERIF, c['call']))
+        for flag in ('', c['interpreter']):
+            subprocess.run([sys.executable] + ([flag] if flag else []) + ['-c', code])
+        return 1
+    common.bind_repo()
+    calls = [(_ev(h[0]), _ev(h[1]), _ev(h[2])) for h in c['history']]
+    for x in calls:
+        resolve(x[0])
+    st = shared.SharedState('athlib')
+    pristine = st.capture()
+    print('the history, from the pristine state:')
+    for x in calls:
+        print('   %r -> %r' % (x, outcome(x)))
+    st.restore(pristine)
+    print('the last call made first: %r' % (outcome(calls[-1]),))
+    return 1
